@@ -3,13 +3,155 @@ package main
 import (
 	"fmt"
 	"os"
+	"strings"
 
 	"golang.org/x/tools/go/ssa"
 )
 
 func cmdSelftest(args []string) { fmt.Println("not yet"); os.Exit(2) }
 
+// inline translates the body of a small, loop-free in-repo function in place (no contract needed):
+// the caller is checked against the callee's real body.
 func (fg *FG) inline(st *State, callee *ssa.Function, args []Val, bindings []Val, in ssa.Instruction) []Val {
-	fg.fail("inlining not implemented")
-	return nil
+	if fg.inlineDepth >= 3 {
+		fg.fail("inlining of %s: nesting too deep (write a contract)", fg.g.keyOf(callee))
+	}
+	// save the per-function translation state
+	saved := struct {
+		fn                   *ssa.Function
+		R                    map[int]string
+		edge                 map[[2]int][]string
+		endSt, headSt        map[int]*State
+		loopOrd              map[int]int
+		loopBlocks           map[int]map[int]bool
+		defers               []*ssa.Defer
+		deferBlk             []int
+		curBlock             int
+		curInstr             ssa.Instruction
+		namePrefix           string
+		inlineEntry          *State
+		inlineRets           *[]inlineRet
+	}{fg.fn, fg.R, fg.edge, fg.endSt, fg.headSt, fg.loopOrd, fg.loopBlocks, fg.defers, fg.deferBlk, fg.curBlock, fg.curInstr, fg.namePrefix, fg.inlineEntry, fg.inlineRets}
+	guard := fg.guard()
+	fg.ninline++
+	fg.fn = callee
+	fg.R = map[int]string{0: guard}
+	fg.edge = map[[2]int][]string{}
+	fg.endSt = map[int]*State{}
+	fg.headSt = map[int]*State{}
+	fg.loopOrd = map[int]int{}
+	fg.loopBlocks = map[int]map[int]bool{}
+	fg.defers, fg.deferBlk = nil, nil
+	fg.namePrefix = fmt.Sprintf("%si%d.", saved.namePrefix, fg.ninline)
+	fg.inlineEntry = st.clone()
+	var rets []inlineRet
+	fg.inlineRets = &rets
+	fg.inlineDepth++
+	restore := func() {
+		fg.fn, fg.R, fg.edge, fg.endSt, fg.headSt, fg.loopOrd, fg.loopBlocks = saved.fn, saved.R, saved.edge, saved.endSt, saved.headSt, saved.loopOrd, saved.loopBlocks
+		fg.defers, fg.deferBlk, fg.curBlock, fg.curInstr, fg.namePrefix = saved.defers, saved.deferBlk, saved.curBlock, saved.curInstr, saved.namePrefix
+		fg.inlineEntry, fg.inlineRets = saved.inlineEntry, saved.inlineRets
+		fg.inlineDepth--
+	}
+	defer restore()
+	fg.analyzeLoops()
+	if len(fg.loopBlocks) > 0 {
+		fg.fail("call to %s: no contract, and the function has loops so it cannot be inlined", fg.g.keyOf(callee))
+	}
+	if len(callee.Params) != len(args) {
+		fg.fail("inlining %s: %d parameters, %d arguments", fg.g.keyOf(callee), len(callee.Params), len(args))
+	}
+	for i, p := range callee.Params {
+		a := args[i]
+		a.Ty = p.Type()
+		fg.vals[p] = a
+	}
+	if len(callee.FreeVars) != len(bindings) {
+		fg.fail("inlining closure %s: bindings are not statically known", fg.g.keyOf(callee))
+	}
+	for i, f := range callee.FreeVars {
+		fg.vals[f] = bindings[i]
+	}
+	pkg := fg.g.pkgOfFn(callee)
+	for _, b := range fg.order() {
+		fg.block(b, pkg)
+	}
+	// merge the returns
+	if len(rets) == 0 {
+		// never returns (always panics): the continuation is unreachable
+		fg.assume(fmt.Sprintf("(not %s)", guard))
+		var out []Val
+		for i := 0; i < callee.Signature.Results().Len(); i++ {
+			rt := callee.Signature.Results().At(i).Type()
+			out = append(out, Val{T: fg.fresh("r.unreach", fg.sorts.sortOf(rt)), Ty: rt})
+		}
+		return out
+	}
+	// heaps
+	fams := map[string]bool{}
+	for _, r := range rets {
+		for f := range r.st.heaps {
+			fams[f] = true
+		}
+	}
+	for f := range st.heaps {
+		fams[f] = true
+	}
+	merged := map[string]string{}
+	for _, f := range sortedKeys(fams) {
+		var terms []string
+		same := true
+		for _, r := range rets {
+			t, ok := r.st.heaps[f]
+			if !ok {
+				t = "H0." + f
+				fg.declare(t, fg.heapSort[f])
+			}
+			terms = append(terms, t)
+			if t != terms[0] {
+				same = false
+			}
+		}
+		if same {
+			merged[f] = terms[0]
+			continue
+		}
+		cur := terms[len(terms)-1]
+		for k := len(terms) - 2; k >= 0; k-- {
+			cur = fmt.Sprintf("(ite %s %s %s)", rets[k].guard, terms[k], cur)
+		}
+		merged[f] = cur
+	}
+	restoreNames := fg.namePrefix
+	_ = restoreNames
+	for f, t := range merged {
+		if st.heaps[f] != t {
+			if strings.HasPrefix(t, "(ite") {
+				fg.setHeap(st, f, t)
+			} else {
+				st.heaps[f] = t
+			}
+		}
+	}
+	// the continuation is reachable only through one of the returns
+	var guards []string
+	for _, r := range rets {
+		guards = append(guards, r.guard)
+	}
+	fg.assume(fmt.Sprintf("(=> %s %s)", guard, smtOr(guards)))
+	var out []Val
+	for i := 0; i < callee.Signature.Results().Len(); i++ {
+		rt := callee.Signature.Results().At(i).Type()
+		cur := rets[len(rets)-1].results[i].T
+		var clo *closureInfo = rets[len(rets)-1].results[i].Clo
+		for k := len(rets) - 2; k >= 0; k-- {
+			if rets[k].results[i].T == cur {
+				continue
+			}
+			cur = fmt.Sprintf("(ite %s %s %s)", rets[k].guard, rets[k].results[i].T, cur)
+		}
+		n := fg.define("r.inl", fg.sorts.sortOf(rt), cur)
+		out = append(out, Val{T: n, Ty: rt, Clo: clo})
+	}
+	return out
 }
